@@ -98,13 +98,12 @@ def regenerate(log):
     p = sh([binp, "-repo", REPO, "-out", tmp_out], cwd=gen_dir, env=GOENV)
     problems = []
     if p.returncode != 0:
-        # the translator met source it cannot translate: every theorem over the generated definitions is unproved
-        problems = ["gen: " + (p.stderr.strip().splitlines() or ["failed"])[-1]]
-    else:
-        for o in outs:
-            src = os.path.join(tmp_out, os.path.basename(o))
-            if not os.path.exists(o) or file_hash(o) != file_hash(src):
-                shutil.copyfile(src, o)
+        # the translator met source it cannot translate: the theorems over THAT part of the generated definitions are unproved
+        problems = [l.strip() for l in p.stderr.strip().splitlines() if l.startswith("gen: ")] or ["gen: failed"]
+    for o in outs:
+        src = os.path.join(tmp_out, os.path.basename(o))
+        if os.path.exists(src) and (not os.path.exists(o) or file_hash(o) != file_hash(src)):
+            shutil.copyfile(src, o)
     shutil.rmtree(tmp_out, ignore_errors=True)
     with open(stamp_path, "w") as f:
         json.dump({"key": h.hexdigest(), "repo": REPO, "problems": problems, "outs": {os.path.basename(o): file_hash(o) for o in outs if os.path.exists(o)}}, f)
